@@ -31,7 +31,8 @@ class Parenthesis(Token):
             from .operand import Empty
             Empty().ast(tokens, stack, builder)
         if self.has_start and tokens and (
-                isinstance(tokens[-1], Operand) or tokens[-1].name == '%'):
+                isinstance(tokens[-1], Operand) or
+                tokens[-1].name in ('%', ')')):
             raise TokenError
         super(Parenthesis, self).ast(tokens, stack, builder)
         if self.has_start:
